@@ -78,7 +78,7 @@ func smallPat(t *rapid.T, depth int) *ref.Pat {
 	if depth == 0 {
 		switch rapid.IntRange(0, 6).Draw(t, "a") {
 		case 0, 1, 2:
-			p := &ref.Pat{K: "lit", R: rapid.SampledFrom([]rune{'a', 'b', 'i', 'n', 't', '9', '+', '=', '"', '\\', 'a', 'b', 0xE9, 0x1F60, 0x1F600}).Draw(t, "r")}
+			p := &ref.Pat{K: "lit", R: rapid.SampledFrom([]rune{'a', 'b', 'i', 'n', 't', '9', '+', '=', '"', '\\', 'a', 'b', 0xE9, 0xE8, 0x1F60, 0x1F600}).Draw(t, "r")}
 			if rapid.IntRange(0, 3).Draw(t, "spelled") == 0 {
 				p.Spell = rapid.SampledFrom([]int{2, 4, 5, 6, 7, 8}).Draw(t, "form")
 			}
@@ -92,7 +92,11 @@ func smallPat(t *rapid.T, depth int) *ref.Pat {
 		default:
 			items := []*ref.Pat{{K: "lit", R: 'a'}}
 			if rapid.Bool().Draw(t, "nonASCIIItem") {
-				items = append(items, &ref.Pat{K: "lit", R: rapid.SampledFrom([]rune{0xE9, 0x1F60, 0x1F600}).Draw(t, "item")})
+				// one to three characters outside ASCII, in any order (a group is a set: the order says nothing)
+				k := rapid.IntRange(1, 3).Draw(t, "nonASCIIItems")
+				for _, r := range rapid.Permutation([]rune{0xE9, 0xE8, 0xE0, 0x1F60, 0x1F600}).Draw(t, "items")[:k] {
+					items = append(items, &ref.Pat{K: "lit", R: r})
+				}
 			}
 			return &ref.Pat{K: "br", Neg: rapid.IntRange(0, 3).Draw(t, "negated") != 0, Items: items}
 		}
